@@ -23,19 +23,29 @@ class C09Plan(Plan):
         "the structural walker reads _inner/_left/_right/_inners/_parameter/name/value",
     ]
 
+    uses_pristine = True
+    PRISTINE_EVERY = 20
+
     def gen(self, rng, tier, index):
         base = None
         if index % (5000 if tier == "quick" else 2000) == 17:
             return gen.gen_giveup(rng)          # natural rewrite-budget exhaustion (GIVEUP fault)
         if tier == "thorough" and index % 7 == 3:
             base = {"n_steps": (25, 60), "n_nodes": (10, 40)}
-        return gen.gen_scenario(rng, base)
+        scn = gen.gen_scenario(rng, base)
+        if index % self.PRISTINE_EVERY == 7:
+            # process boundary owned by the simulator: live history in one forked pristine process,
+            # every reference in another one (sim/pristine.py)
+            scn["pristine"] = True
+        return scn
 
     def directed(self):
         from . import directed
         return directed.C09
 
     def nontrivial(self, run):
+        if "probe" not in run.stats:
+            return run.stats.get("pristine_compared", 0) >= 2
         p = run.stats["probe"]
         return (p["stale-other-point"] + p["half-written"] + p["foreign-cached"] + p["switched-late"]
                 + p["retry-after-failure"]) > 0
